@@ -36,7 +36,7 @@ Inductive case :=
 | CScopeInfos (utf8 : bool) (inputs outs : list (list Model.attr))
 (** One instrument name on several meters with these descriptions: number of families, Gather error, the
     family's help text. *)
-| CHelp (descs : list bytes) (gather_err : bool) (nfam : nat) (help : bytes)
+| CHelp (descs : list bytes) (gather_err : bool) (nfam : nat) (help : bytes) (trials oks : nat)
 (** Reserved scope labels: the meter's real name / version, the keys of its attributes, the labels of its
     otel_scope_info series, the scope labels of its data series. *)
 | CScopeName (utf8 : bool) (real_name real_ver : bytes) (keys : list bytes)
@@ -224,13 +224,19 @@ Definition check_case (c : case) : list N :=
       flag (Nat.eqb (length inputs) (length outs) &&
             forallb (fun i => existsb (labels_ok utf8 i) outs) inputs &&
             forallb (fun o => existsb (fun i => labels_ok utf8 i o) inputs) outs) V_SPECFAIL
-  | CHelp descs gerr nfam help =>
+  | CHelp descs gerr nfam help trials oks =>
+      let has_empty := existsb (fun d => match d with [] => true | _ => false end) descs in
+      let has_nonempty := existsb (fun d => match d with [] => false | _ => true end) descs in
       (* one family with one help text, one of the descriptions given; no Gather error *)
       let ok := negb gerr && (Nat.eqb nfam 0 || (Nat.eqb nfam 1 && existsb (bytes_eqb help) descs)) in
-      (* known finding F-C18-4: an empty description seen first and a non-empty one later make Gather fail *)
-      let known := gerr && existsb (fun d => match d with [] => true | _ => false end) descs &&
-                   existsb (fun d => match d with [] => false | _ => true end) descs in
-      if ok then [] else if known then [V_KNOWN 4] else [V_SPECFAIL]
+      if has_empty && has_nonempty then
+        (* Which meter is seen first is a map order, drawn anew for each of [trials] fresh exporters scraped once each.
+           Every order failing is a violation; known finding F-C18-4 is "some orders fail (an empty description seen
+           first), at least one succeeds". *)
+        if Nat.eqb oks 0 then [V_SPECFAIL]
+        else if (oks <? trials)%nat || negb ok then (if gerr || (oks <? trials)%nat then [V_KNOWN 4] else [V_SPECFAIL])
+        else []
+      else if ok then [] else [V_SPECFAIL]
   | CScopeName utf8 real_name real_ver keys info_labels series_scopes =>
       let reserved k := bytes_eqb k (str "otel_scope_name") || bytes_eqb k (str "otel_scope_version") in
       let label k := match find (fun kv => bytes_eqb (fst kv) k) info_labels with Some kv => Some (snd kv) | None => None end in
